@@ -225,6 +225,12 @@ class SymReal:
         self.r = r
         self.nn = nn
 
+    def __copy__(self):
+        return self
+
+    def __deepcopy__(self, memo):
+        return self         # immutable value
+
     @staticmethod
     def const(x):
         x = Fraction(x)
@@ -593,6 +599,40 @@ def _lift_trig(f, x):
 _SHIMMED = []
 
 
+class SerialPool:
+    """model of multiprocessing.Pool for the symbolic run: `map` is order preserving and every task runs
+    on a *copy* of its argument and returns a *copy* of its result (what pickling to / from a worker
+    process does); worker start-up (`initializer`) runs once.  Scheduling, the number of workers and
+    the workers' private module state are not modelled - results that depended on them would only show
+    in the float replay, which uses the real Pool."""
+
+    def __init__(self, *args, **kwargs):
+        self.processes = kwargs.get('processes', args[0] if args else None)
+        init = kwargs.get('initializer')
+        if init is not None:
+            init(*kwargs.get('initargs', ()))
+
+    def map(self, fn, iterable, chunksize=None):
+        import copy
+        return [copy.deepcopy(fn(copy.deepcopy(x))) for x in list(iterable)]
+
+    def terminate(self):
+        pass
+
+    close = join = terminate
+
+
+class _serial_pool_context:
+    def __init__(self, *args, **kwargs):
+        self.pool = SerialPool(*args, **kwargs)
+
+    def __enter__(self):
+        return self.pool
+
+    def __exit__(self, *exc):
+        return False
+
+
 def install_shims(modules):
     """inject float/math/print shims as module attributes (module globals win over builtins)."""
     ms = MathShim()
@@ -601,6 +641,10 @@ def install_shims(modules):
         if hasattr(m, 'math'):
             m.math = ms
         m.print = lambda *a, **k: None
+        if hasattr(m, 'pool_context'):
+            m.pool_context = _serial_pool_context
+        if hasattr(m, 'Pool'):
+            m.Pool = SerialPool
         _SHIMMED.append(m)
 
 
@@ -1081,6 +1125,14 @@ class Engine:
                         # raised by the harness itself, not by the code under test: harness error
                         self.stats.bump('aborted')
                         results.append({'kind': 'abort', 'why': 'harness exception ' + exc})
+                        # obligations recorded before the harness tripped are still decided: a failing one is a
+                        # (replayed) counterexample and usually the very reason for the harness error
+                        try:
+                            rec = self._finish_path(cx, None)
+                            if any(o.get('status') == 'cex' for o in rec.get('obligations', [])):
+                                results.append(rec)
+                        except Exception:
+                            pass
                         continue
                 finally:
                     if prof:
